@@ -183,12 +183,41 @@ class Live(object):
     def flag(self, key, what, **detail):
         self.verdicts.append((key, what, detail))
 
-    def handshake(self, ev, cfg, cache, sess):
+    def handshake(self, ev, cfg, cache, sess, half=0):
+        """half != 0: the transport holds back the client's second flight (1: all of it, 2: from the
+        ChangeCipherSpec record on); returns outcome ('suspended', state) when the handshake hangs there."""
         cs = mk_settings(ev['maxv'], ev['menu'], ev['ems'], ev['etm'])
         ss = server_settings(cfg)
         p = Pair()
         cap_c, cap_s = [], []
-        p.csock.tap = lambda n, b: (cap_c.append(bytes(b)), b)[1]
+        st = {'chunks': 0, 'holding': False, 'held': [], 'ms': None}
+
+        def ctap(n, b):
+            cap_c.append(bytes(b))
+            st['chunks'] += 1
+            if not half:
+                return b
+            if st['holding']:
+                st['held'].append(bytes(b))
+                return b''
+            if half == 1:
+                if st['chunks'] > 1:
+                    st['holding'] = True
+                    st['held'].append(bytes(b))
+                    return b''
+                return b
+            out, rest = b'', bytes(b)
+            while len(rest) >= 5:
+                ln = 5 + int.from_bytes(rest[3:5], 'big')
+                if rest[0] == 20:
+                    st['holding'] = True
+                    break
+                out, rest = out + rest[:ln], rest[ln:]
+            if st['holding']:
+                st['held'].append(rest)
+                return out
+            return b
+        p.csock.tap = ctap
         p.ssock.tap = lambda n, b: (cap_s.append(bytes(b)), b)[1]
         ckw = dict(session=sess, settings=cs, serverName=SNI[ev['sni']])
         kind = ev.get('kind', 0)
@@ -207,8 +236,40 @@ class Live(object):
             skw.update(certChain=self.chain, privateKey=self.key)
             if auth == 1:
                 skw.update(verifierDB=verifier_db())
-        c, s = p.handshake(client_kw=ckw, server_kw=skw, client_kind=KINDS[kind])
-        return p, classify(c), classify(s), b''.join(cap_c), b''.join(cap_s), cs, ss
+        if not half:
+            c, s = p.handshake(client_kw=ckw, server_kw=skw, client_kind=KINDS[kind])
+            return p, classify(c), classify(s), b''.join(cap_c), b''.join(cap_s), cs, ss
+        # the (deviating) client remembers the master secret it derives
+        orig = p.client._calculate_master_secret
+
+        def rec_ms(*a, **k):
+            st['ms'] = orig(*a, **k)
+            return st['ms']
+        p.client._calculate_master_secret = rec_ms
+        cg = getattr(p.client, {0: 'handshakeClientCert', 1: 'handshakeClientSRP',
+                                2: 'handshakeClientAnonymous'}[kind])(async_=True, **ckw)
+        sg = p.server.handshakeServerAsync(**skw)
+        gens, res, idle = [cg, sg], [None, None], 0
+        while idle < 400 and (res[0] is None or res[1] is None):
+            before = (len(cap_c), len(cap_s))
+            for i in (0, 1):
+                if res[i] is None:
+                    try:
+                        next(gens[i])
+                    except StopIteration:
+                        res[i] = ('ok', None)
+                    except Exception as e:  # noqa
+                        res[i] = ('exc', e)
+            idle = idle + 1 if (len(cap_c), len(cap_s)) == before and st['holding'] else 0
+            if not st['holding'] and idle == 0 and sum(map(len, cap_c)) + sum(map(len, cap_s)) > 10 ** 7:
+                break
+        if res[0] is None and res[1] is None and st['holding']:
+            st['gens'] = (cg, sg)
+            return p, ('suspended', st), ('suspended', st), b''.join(cap_c), b''.join(cap_s), cs, ss
+        for i in (0, 1):          # it ended before the hold point: finish normally
+            if res[i] is None:
+                res[i] = loop.run_gen(gens[i])
+        return p, classify(res[0]), classify(res[1]), b''.join(cap_c), b''.join(cap_s), cs, ss
 
     # ---------------------------------------------------------------- events
     def connect(self, ev):
@@ -241,7 +302,7 @@ class Live(object):
                 self.shadow[skey] = (0, False, 256, ssv[1] if ssv[0] == 'LocalAlert' else 0)
         ev['fsuite'], ev['fcbc'], ev['fhash'], ev['falert'] = self.shadow[skey]
         # --- the connection itself
-        p, c, s, raw_c, raw_s, cs, ss = self.handshake(ev, cfg, srv['cache'], sess)
+        p, c, s, raw_c, raw_s, cs, ss = self.handshake(ev, cfg, srv['cache'], sess, half=ev.get('half', 0))
         ch = first_handshake_msg(raw_c, ClientHello)
         sh = first_handshake_msg(raw_s, ServerHello)
         if ch is not None:
@@ -269,7 +330,28 @@ class Live(object):
                           wire=hello['suites'], computed=ev['suites'])
         rec['hello'] = hello
         ok = (c == ('ok',) and s == ('ok',))
-        if c[0] == 'Other' and c[1] == 'ValueError':
+        if c[0] == 'suspended':
+            # held up before the server saw the client's Finished; the client already knows ID and master secret
+            from tlslite.session import Session
+            obs = [4, 0]
+            conn['open'] = True
+            conn['suspended'] = c[1]['gens']
+            ps = Session()
+            ps.create(c[1]['ms'] or bytearray(48), sh.session_id if sh is not None else bytearray(0),
+                      sh.cipher_suite if sh is not None else 0,
+                      bytearray(SRPU[ev['srp']], 'utf-8') if ev['kind'] == 1 else None,
+                      None, None, None, False, SNI[ev['sni']],
+                      encryptThenMAC=sh is not None and sh.getExtension(ExtensionType.encrypt_then_mac) is not None,
+                      extendedMasterSecret=sh is not None and
+                      sh.getExtension(ExtensionType.extended_master_secret) is not None)
+            self.objs.append({'session': ps, 'conn': ci, 'srv': ev['srv'], 'ver': v, 'completed': False,
+                              'params': [ps.cipherSuite, int(ps.extendedMasterSecret), int(ps.encryptThenMAC),
+                                         ev['sni'], 0, 0],
+                              'origin_ccert': 0, 'inval_c': False, 'inval_s': False, 'inval_s_ticket': False,
+                              'altered': False, 'revived': False, 'rms_altered': False, 'kind': ev['kind'],
+                              'key': None, 'issued_q': (self.q // 4) * 4, 'stored_q': None,
+                              'sid': bytes(ps.sessionID)})
+        elif c[0] == 'Other' and c[1] == 'ValueError':
             obs = [3, 0]
         elif ok:
             srv_res_wire = bool(p.server.resumed)
@@ -336,7 +418,12 @@ class Live(object):
         kind = ev['kind']
         conn['open'] = False
         o = self.objs[conn['obj']] if conn['obj'] is not None else None
-        if kind == 0:
+        if conn.get('suspended'):
+            # the held-up handshake is abandoned: the client's transport goes away
+            p.csock.close()
+            run_gen(conn['suspended'][1])
+            conn['suspended'] = None
+        elif kind == 0:
             p.close_both()
         elif kind == 1:
             # corrupt the next client record: the server answers with a fatal alert, the client reads it
@@ -479,6 +566,7 @@ class Live(object):
             if o['inval_c'] and not o['revived']:
                 self.flag('client-offers-invalidated-session:' + path,
                           'the client offered session object %d although a fatal error invalidated it' % ev['offer'], conn=rec['ci'])
+            conds['completed'] = o.get('completed', True)
             if offered == 'sid':
                 conds['known-to-server'] = same_server and o['stored_q'] is not None
                 conds['not-expired'] = o['stored_q'] is not None and self.q - o['stored_q'] <= cfg['maxage'] * 4
@@ -551,8 +639,8 @@ class Live(object):
             return
         # not resumed: the connection must not break, unless a full handshake is impossible anyway
         # or the offer was a genuine session with an inconsistent hello (the server may abort then)
-        if obs[0] == 3:
-            return      # client API refused before sending anything: nothing on the wire
+        if obs[0] in (3, 4):
+            return      # client API refused before sending anything / handshake deliberately held up by the transport
         if not done and ev['fsuite'] != 0:
             genuine = bool(conds) and all(x for k, x in conds.items()
                                           if k not in ('not-invalidated', 'no-failed-ticket-connection'))
@@ -633,6 +721,9 @@ def gen_conn(rng, live, theme):
                 ev['kind'], ev['srp'] = 1, srp_handle(s.srpUsername)
             elif ev['kind'] == 1:
                 ev['kind'] = o.get('kind', 0) if o.get('kind', 0) != 1 else 0
+    if ev['offer'] is None and rng.random() < 0.07:
+        ev['half'] = rng.choice([1, 2])        # this handshake is held up before the client's Finished
+        ev['maxv'] = min(ev['maxv'], 3)
     if ev['kind'] != 0:
         ev['ccert'] = 0
         ev['maxv'] = min(ev['maxv'], 3)          # SRP / anonymous suites exist up to TLS 1.2 only
@@ -754,10 +845,10 @@ def event_lit(ev):
     e = ev['e']
     if e == 'conn':
         return ('EConn {| cp_srv := %d; cp_maxv := %d; cp_suites := %s; cp_ems := %s; cp_etm := %s; cp_sni := %d; '
-                'cp_srp := %d; cp_ccert := %d; cp_offer := %s; o_acc := %s; o_fsuite := %d; o_fcbc := %s; o_fhash := %d; o_falert := %d |}'
+                'cp_srp := %d; cp_ccert := %d; cp_offer := %s; cp_half := %d; o_acc := %s; o_fsuite := %d; o_fcbc := %s; o_fhash := %d; o_falert := %d |}'
                 % (ev['srv'], ev['maxv'], zl(ev['suites']), b(ev['ems']), b(ev['etm']), ev['sni'], ev.get('srp', 0),
                    ev['ccert'] if ev.get('kind', 0) == 0 else 0,
-                   'None' if ev['offer'] is None else '(Some %d)' % ev['offer'],
+                   'None' if ev['offer'] is None else '(Some %d)' % ev['offer'], ev.get('half', 0),
                    zl(ev['acc']), ev['fsuite'], b(ev['fcbc']), ev['fhash'], ev['falert']))
     if e == 'close':
         return 'EClose %d %d' % (ev['conn'], ev['kind'])
